@@ -38,6 +38,10 @@ BASE = [
     B('[0]int', ['[0]int{}', '[0]int{}']),
     B('[2]string', ['[2]string{}', '[2]string{"a", "b"}', '[2]string{"", "zz"}']),
     B('struct{}', ['struct{}{}', 'struct{}{}']),
+    # large foci / large intermediate structs (size thresholds of copy-avoiding fast paths: 128, 256, 1024 bytes)
+    B('[40]int64', ['[40]int64{}', '[40]int64{1, 2, 39: -1}', '[40]int64{0: -9, 20: 5, 39: 7}']),
+    B('[33]string', ['[33]string{}', '[33]string{"a", "b", 32: "last"}', '[33]string{16: "mid", 32: "z"}']),
+    B('[1100]byte', ['[1100]byte{}', '[1100]byte{1, 2, 3, 1099: 9}', '[1100]byte{500: 7}'], canon='[1100]uint8'),
     B('*int', ['nil', 'pInt1', 'pInt2']),
     B('*string', ['nil', 'pStr1', 'pStr2']),
     B('map[string]int', ['nil', 'm1', 'm2']),
@@ -70,6 +74,7 @@ NEAR = {
     'fmt.Stringer': ['any', 'error'], '*int': ['*string', 'int', 'uintptr'], '*string': ['*int', 'string'], 'map[string]int': ['[]int', 'any'],
     'chan int': ['*int', 'any'], '[3]int16': ['[]int', '[2]string'], '[0]int': ['struct{}', '[]int'], 'struct{}': ['[0]int', 'bool'],
     'uint16': ['int16'], 'int16': ['uint16', 'int32'], 'uint64': ['int64', 'uintptr'], 'uintptr': ['uint64', '*int'], 'float32': ['float64', 'int32'],
+    '[40]int64': ['[]int', '[33]string'], '[33]string': ['[2]string', 'string'], '[1100]byte': ['[]byte', 'string'],
     'complex64': ['float64', 'complex128'], 'complex128': ['complex64', '[2]string'], '[]int': ['[]byte', '[3]int16'], '[2]string': ['string', '[3]int16'],
 }
 
@@ -135,6 +140,8 @@ class Gen:
         self.used_tys = {}
         for i in range(nshapes):
             self.roots.append(self.gen_struct(0, root=True, hard=(i % 5)))
+        # wide containers: the unfolding crosses 64 / 128 / 256 entries (bit masks, small fixed tables, byte counters)
+        self.wides = [self.gen_wide_struct(64), self.gen_wide_struct(self.r.choice([128, 256]))]
 
     def newname(self, prefix):
         self.nextid += 1
@@ -189,9 +196,39 @@ class Gen:
                 st.fields.append(Field(fname(), r.choice(BASE), tag))
             elif depth < 3 and x < 0.33:
                 sub = self.gen_struct(depth + 1)
+                if r.random() < 0.4:   # a large intermediate struct
+                    sub.fields.insert(r.randrange(len(sub.fields) + 1), Field('Big%d' % len(sub.fields), BYGO[r.choice(['[40]int64', '[33]string', '[1100]byte'])]))
                 st.fields.append(Field(fname(), None, tag, embedded=False, ptr=r.random() < 0.25, struct=sub))
             else:
                 st.fields.append(Field(fname(), r.choice(BASE), tag))
+        self.structs.append(st)
+        return st
+
+    def gen_wide_struct(self, th):
+        """W: k plain fields, then a value-embedded struct, a pointer-embedded struct and a few more fields, placed so
+        that the unfolding crosses entry number th inside them; st.window = entry indices cases are generated for"""
+        r = self.r
+        small = [BYGO[t] for t in ('int8', 'int64', 'string', 'bool', 'uint16', 'float64', 'MyStr', '[]byte', 'int32', 'any')]
+        ev = Struct(self.newname('E'))
+        ev.fields = [Field('VA', BYGO['int64']), Field('VB', BYGO['string']), Field('VC', BYGO['bool']), Field('VD', BYGO['uint16'])]
+        ep = Struct(self.newname('E'))
+        ep.fields = [Field('PA', BYGO['int64']), Field('PB', BYGO['string']), Field('PC', BYGO['uintptr'])]
+        self.structs += [ev, ep]
+        st = Struct(self.newname('S'))
+        tail = [Field(ev.name, None, '', embedded=True, ptr=False, struct=ev), Field(ep.name, None, '', embedded=True, ptr=True, struct=ep)]
+        if th == 64:
+            k = th - r.randint(2, 5)     # value-embedded entries straddle th, pointer-embedded ones lie past it
+        else:
+            k = th - r.randint(0, 2)     # pointer-embedded entries straddle th, value-embedded ones lie past it
+            tail.reverse()
+        for i in range(k):
+            st.fields.append(Field('F%03d' % i, r.choice(small)))
+        st.fields += tail
+        for i in range(r.randint(2, 5)):
+            st.fields.append(Field('T%d' % i, r.choice(small)))
+        n = len(listing(st))
+        st.window = sorted(set([0, 1, k // 2] + list(range(max(0, k - 3), n))))
+        st.wide = True
         self.structs.append(st)
         return st
 
@@ -383,7 +420,11 @@ func off[S any, F any](s *S, f *F) uintptr { return uintptr(unsafe.Pointer(f)) -
             self.gen_by_entry(st, L)
             self.gen_c02(st, L)
             self.gen_c04(st, L)
-        # structs used only as dependencies still need decl consts? no: decl_ is referenced only for roots
+        for st in self.wides:
+            L = listing(st)
+            self.decls.append('const decl_%s = %s' % (st.name, q(self.decl_with_deps(st))))
+            self.gen_c03(st, L)
+            self.gen_wide(st, L)
 
     def gen_static(self):
         """hand-written corpus: two container types that print alike (x.Box from two packages named x)"""
@@ -424,6 +465,24 @@ func off[S any, F any](s *S, f *F) uintptr { return uintptr(unsafe.Pointer(f)) -
         self.w('\trt.WrongArg("C02", c, "xa.Box reflector: Putt(*xb.Box)", unsafe.Pointer(b), unsafe.Sizeof(*b), func() { ra.Putt(b, "hijacked") })')
         self.w('\trt.End(c, "C02/static/foreign", true)\n}\n')
 
+    def twist(self, st):
+        """the same type names with another layout (fields reversed, one more in front), as local declarations
+        in dependency order; returns (twisted root, [decl text])"""
+        memo, decls = {}, []
+        def rec(s):
+            if s.name in memo:
+                return memo[s.name]
+            t = Struct(s.name)
+            memo[s.name] = t
+            fs = []
+            for f in reversed(s.fields):
+                sub = rec(f.struct) if f.struct is not None else None
+                fs.append(Field(f.name, f.ty, f.tag, embedded=f.embedded, ptr=f.ptr, struct=sub))
+            t.fields = [Field('Twin0', BYGO['bool'])] + fs
+            decls.append(self.decl(t))
+            return t
+        return rec(st), decls
+
     def decl_with_deps(self, st):
         seen, out = set(), []
         def rec(s):
@@ -458,6 +517,39 @@ func off[S any, F any](s *S, f *F) uintptr { return uintptr(unsafe.Pointer(f)) -
         self.w('\tfmapped := hseq.FMap(seq, func(t hseq.Type[%s]) int { return t.ID })' % S)
         self.w('\trt.CheckIDs("C03", c, "hseq.FMap", fmapped, rt.Iota(len(seq)))')
         self.case_end('C03/listing/%s' % S, len(L) > 1)
+
+        # the same type names declared again in a local scope with another layout: both print as main.<name>, so
+        # anything remembered per printed name (or per name of an embedded type) hands this one the other's listing
+        tw, decls = self.twist(st)
+        L2 = listing(tw)
+        self.case_begin('C03', 'listing/local-twin', st, 'hseq.New[%s]() for a function-local type of the same name (other layout), after the package-level one' % S,
+                        'listing of the local declaration: %d entries' % len(L2))
+        self.w('\tfirst := len(hseq.New[%s]()) // the package-level type of this name is unfolded first, in this process' % S)
+        for d in decls:
+            self.w('\t' + d.replace('\n', '\n\t'))
+        self.w('\t_ = first')
+        self.w('\tseq := hseq.New[%s]()' % S)
+        self.w('\twant := []rt.Want3[%s]{' % S)
+        for i, e in enumerate(L2):
+            T = e.gotype()
+            pure = T[1:] if T.startswith('*') else T
+            offexpr = 'rt.NoOffset'
+            if not e.crossing:
+                offexpr = 'off(s, &s.%s)' % e.sel()
+            self.w('\t\t{Key: %s, Name: %s, Type: typeOf[%s](), Pure: typeOf[%s](), Off: func(s *%s) uintptr { return %s }},' % (
+                q(e.key()), q(e.f.name), T, pure, S, offexpr))
+        self.w('\t}')
+        self.w('\tgot := make([]rt.Got3, len(seq))')
+        self.w('\tfor i, t := range seq {\n\t\tgot[i] = rt.Got3{Key: t.FieldKey(), Name: t.Name, Type: t.Type, Pure: t.PureType, ID: t.ID, Off: t.RootOffs + t.Offset}\n\t}')
+        self.w('\trt.CheckListing("C03", c, new(%s), got, want)' % S)
+        k2 = []
+        for e in L2:
+            if e.key() not in k2:
+                k2.append(e.key())
+        for k in k2[:6]:
+            idx = L2.index(self.resolve_name(L2, k))
+            self.w('\trt.CheckLookup("C03", c, %s, %d, func() int { return hseq.ForName(seq, %s).ID })' % (q('ForName(%s)' % k), idx, q(k)))
+        self.case_end('C03/listing-local-twin/%s' % S, len(L2) > 1)
 
         # lookups by name: every key present + absent ones
         keys = []
@@ -577,6 +669,34 @@ func off[S any, F any](s *S, f *F) uintptr { return uintptr(unsafe.Pointer(f)) -
                         get, put = 'l%d.Gett(s)' % i, 'unbox[*%s](l%d.Putt(s, unbox[%s](v)))' % (S, i, T)
                     self.w('\trt.CheckOptic(%s)' % self.optic_lit('C01', st, e, get, put))
                 self.case_end('C01/%s/%s' % (S, req), True)
+
+    def gen_wide(self, st, L):
+        """wide containers: the entries around the threshold, by name and by entry; entries behind the embedded
+        pointer must be refused whatever their number"""
+        S = st.name
+        for i in st.window:
+            e = L[i]
+            T = e.gotype()
+            k = e.key()
+            if e.crossing:
+                req = 'ForProduct1/ForSpectrum1[%s, %s](%s), NewLens/NewReflector(hseq.New[%s]()[%d])' % (S, T, k, S, i)
+                self.case_begin('C02', 'wide/must-fail', st, req, 'panic: entry %d (%s) is reached through an embedded pointer' % (i, e.sel()))
+                self.w('\tif pn, _ := rt.Derive(func() { _ = optics.ForProduct1[%s, %s](%s) }); !pn {\n\t\trt.Accepted("C02", c, "lens by name: entry %d is reached through an embedded pointer")\n\t}' % (S, T, q(k), i))
+                self.w('\tif pn, _ := rt.Derive(func() { _ = optics.ForSpectrum1[%s, %s](%s) }); !pn {\n\t\trt.Accepted("C02", c, "reflector by name: entry %d is reached through an embedded pointer")\n\t}' % (S, T, q(k), i))
+                self.w('\tif pn, _ := rt.Derive(func() { _ = optics.NewLens[%s, %s](hseq.New[%s]()[%d]) }); !pn {\n\t\trt.Accepted("C02", c, "lens by entry: entry %d is reached through an embedded pointer")\n\t}' % (S, T, S, i, i))
+                self.w('\tif pn, _ := rt.Derive(func() { _ = optics.NewReflector[%s, %s](hseq.New[%s]()[%d]) }); !pn {\n\t\trt.Accepted("C02", c, "reflector by entry: entry %d is reached through an embedded pointer")\n\t}' % (S, T, S, i, i))
+                self.case_end('C02/%s/wide/%d' % (S, i), True)
+                continue
+            req = 'ForProduct1/ForSpectrum1[%s, %s](%s), NewLens/NewReflector(hseq.New[%s]()[%d])' % (S, T, k, S, i)
+            self.case_begin('C01', 'wide/entry-%s' % ('below' if i < 60 else 'at-threshold'), st, req, 'focus ' + e.sel())
+            self.w('\tvar l, l2 optics.Lens[%s, %s]\n\tvar rf, rf2 optics.Reflector[%s]' % (S, T, T))
+            self.w('\tif pn, msg := rt.Derive(func() {\n\t\tseq := hseq.New[%s]()\n\t\tl = optics.NewLens[%s, %s](seq[%d])\n\t\trf = optics.NewReflector[%s, %s](seq[%d])\n\t\tl2 = optics.ForProduct1[%s, %s](%s)\n\t\trf2 = optics.ForSpectrum1[%s, %s](%s)\n\t}); pn {\n\t\trt.Refused("C01", c, msg)\n\t\trt.End(c, %s, true)\n\t\treturn\n\t}' % (
+                S, S, T, i, S, T, i, S, T, q(k), S, T, q(k), q(req)))
+            self.w('\trt.CheckOptic(%s)' % self.optic_lit('C01', st, e, 'l.Get(s)', 'l.Put(s, unbox[%s](v))' % T))
+            self.w('\trt.CheckOptic(%s)' % self.optic_lit('C01', st, e, 'rf.Gett(s)', 'unbox[*%s](rf.Putt(s, unbox[%s](v)))' % (S, T)))
+            self.w('\trt.CheckOptic(%s)' % self.optic_lit('C01', st, e, 'l2.Get(s)', 'l2.Put(s, unbox[%s](v))' % T))
+            self.w('\trt.CheckOptic(%s)' % self.optic_lit('C01', st, e, 'rf2.Gett(s)', 'unbox[*%s](rf2.Putt(s, unbox[%s](v)))' % (S, T)))
+            self.case_end('C01/%s/wide/%d' % (S, i), True)
 
     def gen_by_entry(self, st, L):
         """NewLens / NewReflector applied to the i-th entry of the unfolding focus that very entry — also for
@@ -789,18 +909,21 @@ func off[S any, F any](s *S, f *F) uintptr { return uintptr(unsafe.Pointer(f)) -
         if not plain:
             return
         # --- Join through non-embedded struct-typed value fields (depth 1..3)
-        def joins(s, lens_expr, path, depth):
+        def joins(s, lens_expr, path, depth, outer=None):
+            # the intermediate focus is any struct-typed value field the name resolves to without crossing a pointer:
+            # a direct field, or one promoted from a value-embedded struct (the outer lens then carries a root offset)
             out = []
-            for f in s.fields:
-                if f.struct is not None and not f.ptr and not f.embedded and ok_name(f.key()) and self.direct_first(s, f):
+            sL = listing(s)
+            for en in sL:
+                f = en.f
+                if f.struct is not None and not f.ptr and not f.embedded and not en.crossing and ok_name(f.key()) and self.resolve_name(sL, f.key()) is en:
                     sub = f.struct
-                    inner = 'optics.ForProduct1[%s, %s](%s)' % (s.name, sub.name, q(f.key()))
-                    chain = inner if lens_expr is None else None
-                    out.append((sub, path + [f.name], (lens_expr or []) + [(s.name, sub.name, f.key())]))
+                    here = path + en.path + [f.name]
+                    out.append((sub, here, (lens_expr or []) + [(s.name, sub.name, f.key())], outer or here))
                     if depth < 3:
-                        out += joins(sub, (lens_expr or []) + [(s.name, sub.name, f.key())], path + [f.name], depth + 1)
+                        out += joins(sub, (lens_expr or []) + [(s.name, sub.name, f.key())], here, depth + 1, outer or here)
             return out
-        for sub, path, chain in joins(st, None, [], 1):
+        for sub, path, chain, outerp in joins(st, None, [], 1):
             subL = listing(sub)
             leafs = [e for e in subL if not e.crossing and ok_name(e.key()) and self.resolve_name(subL, e.key()) is e]
             for e in leafs[:3]:
@@ -811,12 +934,13 @@ func off[S any, F any](s *S, f *F) uintptr { return uintptr(unsafe.Pointer(f)) -
                     expr = 'optics.Join(%s, optics.ForProduct1[%s, %s](%s))' % (expr, a, b, q(k))
                 expr = 'optics.Join(%s, optics.ForProduct1[%s, %s](%s))' % (expr, sub.name, T, q(e.key()))
                 full = Entry(e.f, path + e.path, False)
+                outer = '.'.join(outerp)   # the outermost intermediate field (may be promoted)
                 req = 'Join depth %d -> %s' % (len(chain), full.sel())
                 self.case_begin('C04', 'Join/depth%d' % len(chain), st, req, 'lens on the nested field')
                 self.w('\tvar l optics.Lens[%s, %s]' % (S, T))
                 self.w('\tif pn, msg := rt.Derive(func() { l = %s }); pn {\n\t\trt.Refused("C04", c, msg)\n\t\trt.End(c, %s, true)\n\t\treturn\n\t}' % (expr, q(req)))
                 lit = self.optic_lit('C04', st, full, 'l.Get(s)', 'l.Put(s, unbox[%s](v))' % T)
-                lit = lit.replace('{Off: off(s, &s.%s), Size: unsafe.Sizeof(s.%s)}' % (full.sel(), full.sel()), '{Off: off(s, &s.%s), Size: unsafe.Sizeof(s.%s)}' % (path[0], path[0]))
+                lit = lit.replace('{Off: off(s, &s.%s), Size: unsafe.Sizeof(s.%s)}' % (full.sel(), full.sel()), '{Off: off(s, &s.%s), Size: unsafe.Sizeof(s.%s)}' % (outer, outer))
                 self.w('\trt.CheckOptic(%s)' % lit)
                 self.case_end('C04/%s/%s' % (S, req), True)
         # --- BiMap / BiMapX / Getter / Setter on plain fields
